@@ -93,7 +93,7 @@ def gen_checks(summary):
     ok, fails, log = lake_build(['blfdriver'])
     if not ok:
         return None, fails, log
-    out, rc, err = session(driver_exe(), ['regcheck', 'tables'])
+    out, rc, err = session(driver_exe(), ['regcheck', 'tables', 'safecheck'])
     res = {}
     tables = {}
     if out and out[0].startswith('regcheck'):
@@ -105,6 +105,29 @@ def gen_checks(summary):
             n, v = tok.split('=')
             tables[n] = {'inputsInit': v[0] == '1', 'arraysInit': v[1] == '1', 'allInit': v[2] == '1', 'ctorOk': v[3] == '1'}
     summary['tables'] = tables
+    safe = {}
+    syncf = {}
+    if len(out) > 2 and out[2].startswith('safecheck'):
+        for tok in out[2].split()[1:]:
+            n, v = tok.split('=')
+            safe[n] = (v[0] == '1')
+            syncf[n] = (v[1:2] == '1')
+    summary['readSafe'] = safe
+    summary['syncFirst'] = syncf
+    # memory safety of the decoders: per-class kernel obligations of `readSafe_sound`
+    t = 'import Blf.Gen.All\nimport Blf.Codec.Safe\nimport Blf.Codec.Pos\n/-! generated: `readSafe` of every regenerated decoder, decided by the kernel -/\nnamespace Blf.Gen\nopen Blf\n\n'
+    for n in sorted(safe):
+        t += 'theorem %s_%s : readSafe %s = %s := by decide +kernel\n' % (n, 'readSafe' if safe[n] else 'not_readSafe', n, 'true' if safe[n] else 'false')
+    t += '\n/-- the decoders that pass the memory-safety check -/\ndef safeCodecs : List Codec := [' + ', '.join(n for n in sorted(safe) if safe[n]) + ']\n\n'
+    t += 'theorem safe_all : (safeCodecs.all readSafe) = true := by decide +kernel\n\n'
+    if safe and all(safe.values()):
+        t += '/-- every decoder of the object factory, the log container and the base header pass the check -/\n'
+        t += 'theorem all_readSafe : ((ObjectHeaderBase :: allCodecs).all readSafe) = true := by decide +kernel\n\n'
+    if syncf and all(syncf.values()):
+        t += '/-- every decoder begins with the signature search -/\n'
+        t += 'theorem all_syncFirst : ((ObjectHeaderBase :: allCodecs).all fun c => c.readProg.syncFirst) = true := by decide +kernel\n\n'
+    t += '/-- decoders that do not pass it -/\ndef unsafeNames : List String := [' + ', '.join('"%s"' % n for n in sorted(safe) if not safe[n]) + ']\n\nend Blf.Gen\n'
+    write_if_changed(os.path.join(GEN, 'Safe.lean'), t)
     nch = 1 + max([c['chunk'] for c in summary['classes']] or [0])
     for j in range(nch):
         t = 'import Blf.Gen.C%d\n/-! generated: per-class side conditions of `regular_sound`, decided by the kernel -/\nnamespace Blf.Gen\nopen Blf\n\n' % j
@@ -139,7 +162,7 @@ def gen_checks(summary):
     t += '/-- classes whose default constructor passes a type code the factory does not map back to them -/\ndef ctorMismatch : List String := ' + lst('ctorOk') + '\n\n'
     t += 'end Blf.Gen\n'
     write_if_changed(os.path.join(GEN, 'Exact.lean'), t)
-    write_if_changed(os.path.join(GEN, 'Checks.lean'), 'import Blf.Gen.Exact\n')
+    write_if_changed(os.path.join(GEN, 'Checks.lean'), 'import Blf.Gen.Exact\nimport Blf.Gen.Safe\n')
     return res, [], log
 
 
